@@ -113,8 +113,12 @@ class error_999_visitor(pyx12.error_visitor.error_visitor):
                     err_codes.append(isa_ele_err_map[elem.ele_pos])
                 elif 'IEA' in err_str:
                     err_codes.append(iea_ele_err_map[elem.ele_pos])
-        # return unique codes
-        return list(set(err_codes))
+        # return unique codes, keeping the order of the list
+        uniq_codes = []
+        for err in err_codes:
+            if err not in uniq_codes:
+                uniq_codes.append(err)
+        return uniq_codes
 
     def visit_root_post(self, errh):
         """
@@ -304,7 +308,7 @@ class error_999_visitor(pyx12.error_visitor.error_visitor):
             if '8' not in errors:
                 errors.append('8')
             errors = [x for x in errors if x != 'SEG1']
-        for err_cde in list(set(errors)):
+        for err_cde in sorted(set(errors)):
             if err_cde in valid_IK3_codes:  # unique codes
                 seg_data = pyx12.segment.Segment(seg_str, '~', '*', ':')
                 seg_data.set('IK304', err_cde)
